@@ -539,10 +539,20 @@ pub fn c08(c: &mut Ctx, b: &Budget) {
             let na = orig.assertions().len();
             let k = c.rng.below(na);
             let t = c.assign(&format!("at {} a{}", e, k));
-            let act = match c.rng.below(4) { 0 | 1 => format!("encrypt:{}", KEY2), 2 => "compress".to_string(), _ => "elide".to_string() };
+            // (under another key, and under the very key used below: what that key could open stays closed unless asked for)
+            let act = match c.rng.below(5) { 0 => format!("encrypt:{}", KEY2), 1 | 4 => format!("encrypt:{}", KEY1), 2 => "compress".to_string(), _ => "elide".to_string() };
             let pre = c.assign(&format!("elide_set {} rem {} {}", e, act, t));
             if let Some(pe) = c.env(&pre) {
                 c.count(&format!("branch:pre-obscured-assertion:{}", &act[..5]));
+                // the subject form on the envelope itself: its obscured assertion elements are not the subject
+                if !pe.subject().is_encrypted() && !pe.subject().is_elided() {
+                    let nn = hex::encode(c.rng.bytes(12));
+                    let se = c.assign(&format!("encrypt_subject {} {} {}", pre, KEY1, nn));
+                    let sd = c.assign(&format!("decrypt_subject {} {}", se, KEY1));
+                    c.obs(&format!("eq {} {}", pre, sd));
+                    match c.env(&sd) { Some(d) => c.check("decrypt-identical", d.is_identical_to(&pe), "decrypt-identical", || format!("subject form, an assertion obscured before ({}): {} -> {}", &act[..5], shape(&pe), shape(&d))),
+                        None => { let v = c.val(&sd).show(); c.check("decrypt-identical", false, "decrypt-identical", || format!("{} for {}", v, shape(&pe))) } }
+                }
                 let nn = hex::encode(c.rng.bytes(12));
                 let we = c.assign(&format!("encrypt {} {} {}", pre, KEY1, nn));
                 let wd = c.assign(&format!("decrypt {} {}", we, KEY1));
